@@ -181,6 +181,36 @@ class PropertyRun:
             broken.append("zero obligations generated")
         self.broken = broken
         base = self.load_baseline()
+        from concurrent.futures import ThreadPoolExecutor
+        # undecided by every back end: (1) the query without its quantified assumptions -- unsat there is unsat of the full
+        # query, sat there is only a candidate; (2) one retry with a larger budget.  Both rounds run in the pool; at most three
+        # instances of one named obligation are retried (a fourth undecided instance decides nothing new).
+        pend = []
+        for name, os_ in self.groups().items():
+            if any(o.result == "sat" for o in os_):
+                continue
+            pend.extend([o for o in os_ if o.result != "unsat"][:3])
+
+        def relaxed(o):
+            rtxt = smt.to_smt2_relaxed(o.axioms, o.assumptions, o.goal)
+            rr = smt.solve(rtxt, self.timeout)
+            o.tried = o.tried + [("relaxed:" + str(b), v, t) for b, v, t in rr["tried"]]
+            if rr["verdict"] == "unsat":
+                o.result, o.backend, o.time = "unsat", "relaxed/" + str(rr["backend"]), o.time + rr["time"]
+            elif rr["verdict"] == "sat":
+                o.candidate = rr["raw"]
+
+        def retry(o):
+            if o.result == "unsat":
+                return
+            r = smt.solve(o.smt2, self.timeout * 2)
+            o.result, o.backend, o.time, o.raw = r["verdict"], r["backend"], o.time + r["time"], r["raw"]
+            o.tried = o.tried + r["tried"]
+
+        if pend:
+            with ThreadPoolExecutor(max_workers=max(2, self.jobs // 2)) as ex:
+                list(ex.map(relaxed, pend))
+                list(ex.map(retry, pend))
         for name, os_ in self.groups().items():
             if all(o.result == "unsat" for o in os_):
                 continue
@@ -188,34 +218,13 @@ class PropertyRun:
             if sat:
                 self.handle_failed(name, sat[0], "refuted")
                 continue
-            # undecided by every back end: (1) the query without its quantified assumptions -- unsat there is unsat of the
-            # full query, sat there is only a candidate; (2) one retry with a larger budget
-            pend = [o for o in os_ if o.result != "unsat"]
-            for o in pend:
-                rtxt = smt.to_smt2_relaxed(o.axioms, o.assumptions, o.goal)
-                rr = smt.solve(rtxt, self.timeout)
-                o.tried = o.tried + [("relaxed:" + str(b), v, t) for b, v, t in rr["tried"]]
-                if rr["verdict"] == "unsat":
-                    o.result, o.backend, o.time = "unsat", "relaxed/" + str(rr["backend"]), o.time + rr["time"]
-                    continue
-                if rr["verdict"] == "sat":
-                    o.candidate = rr["raw"]
-                r = smt.solve(o.smt2, self.timeout * 2)
-                o.result, o.backend, o.time, o.raw = r["verdict"], r["backend"], o.time + r["time"], r["raw"]
-                o.tried = o.tried + r["tried"]
-            sat = [o for o in os_ if o.result == "sat"]
-            if sat:
-                self.handle_failed(name, sat[0], "refuted")
-            elif all(o.result == "unsat" for o in os_):
-                continue
+            o = [o for o in os_ if o.result != "unsat"][0]
+            changed = self.changed_since_baseline(base, o.contract.key)
+            if base is not None and name in base.get("discharged", []) and changed:
+                # passed on the pinned tree, the code it depends on has changed, and it is no longer provable
+                self.handle_failed(name, o, "regressed", changed)
             else:
-                o = [o for o in os_ if o.result != "unsat"][0]
-                changed = self.changed_since_baseline(base, o.contract.key)
-                if base is not None and name in base.get("discharged", []) and changed:
-                    # passed on the pinned tree, the code it depends on has changed, and it is no longer provable
-                    self.handle_failed(name, o, "regressed", changed)
-                else:
-                    self.undecided.append(dict(obligation=name, reason="no back end decided it: " + "; ".join(str(x.tried) for x in os_ if x.result != "unsat")))
+                self.undecided.append(dict(obligation=name, reason="no back end decided it: " + "; ".join(str(x.tried) for x in os_ if x.result != "unsat")[:600]))
 
     def load_baseline(self):
         p = os.path.join(ROOT, "baseline", self.pid + ".json")
